@@ -228,6 +228,21 @@ type lScriptMap struct {
 	m       sync.Mutex
 	scripts map[string]*lua.FunctionProto
 	lru     tinylru.LRUG[string, *lua.FunctionProto]
+	// the text of each script, for commands that are logged with a script in
+	// them: a digest means nothing to a restarted server or a follower
+	sources   map[string]string
+	lrusource tinylru.LRUG[string, string]
+}
+
+// Source returns the text of a script known by its digest.
+func (sm *lScriptMap) Source(key string) (source string, ok bool) {
+	sm.m.Lock()
+	source, ok = sm.sources[key]
+	if !ok {
+		source, ok = sm.lrusource.Get(key)
+	}
+	sm.m.Unlock()
+	return source, ok
 }
 
 func (sm *lScriptMap) Get(key string) (script *lua.FunctionProto, ok bool) {
@@ -240,22 +255,26 @@ func (sm *lScriptMap) Get(key string) (script *lua.FunctionProto, ok bool) {
 	return script, ok
 }
 
-func (sm *lScriptMap) Put(key string, script *lua.FunctionProto) {
+func (sm *lScriptMap) Put(key string, script *lua.FunctionProto, source string) {
 	sm.m.Lock()
 	sm.scripts[key] = script
+	sm.sources[key] = source
 	sm.m.Unlock()
 }
 
-func (sm *lScriptMap) PutLRU(key string, script *lua.FunctionProto) {
+func (sm *lScriptMap) PutLRU(key string, script *lua.FunctionProto, source string) {
 	sm.m.Lock()
 	sm.lru.Set(key, script)
+	sm.lrusource.Set(key, source)
 	sm.m.Unlock()
 }
 
 func (sm *lScriptMap) Flush() {
 	sm.m.Lock()
 	sm.scripts = make(map[string]*lua.FunctionProto)
+	sm.sources = make(map[string]string)
 	sm.lru.Clear()
+	sm.lrusource.Clear()
 	sm.m.Unlock()
 }
 
@@ -263,6 +282,7 @@ func (sm *lScriptMap) Flush() {
 func (s *Server) newScriptMap() *lScriptMap {
 	return &lScriptMap{
 		scripts: make(map[string]*lua.FunctionProto),
+		sources: make(map[string]string),
 	}
 }
 
@@ -565,7 +585,7 @@ func (s *Server) cmdEvalUnified(scriptIsSha bool, msg *Message) (res resp.Value,
 		if err != nil {
 			return NOMessage, makeSafeErr(err)
 		}
-		s.luascripts.Put(shaSum, fn.Proto)
+		s.luascripts.Put(shaSum, fn.Proto, script)
 	}
 	luaState.Push(fn)
 	if err := luaState.PCall(0, 1, nil); err != nil {
@@ -623,7 +643,7 @@ func (s *Server) cmdScriptLoad(msg *Message) (resp.Value, error) {
 	if err != nil {
 		return NOMessage, makeSafeErr(err)
 	}
-	s.luascripts.Put(shaSum, fn.Proto)
+	s.luascripts.Put(shaSum, fn.Proto, script)
 
 	switch msg.OutputType {
 	case JSON:
